@@ -138,12 +138,12 @@ theorem paths_gt (d : DCtx) (w : World) (config : Option Str) (s0 : Sid) (rest :
 theorem paths_joint (d : DCtx) (w : World) (config : Option Str) (stars : List Sid)
     (rs : List (List Sid)) (R : List Sid)
     (hsp : ∀ s ∈ stars, ∃ po, d.ctx.sidPath config s = .ok po)
-    (hgm : ∀ s ∈ stars, '[' ∉ s.string) (hstr : SameStr d config stars)
+    (hgm : ∀ s ∈ stars, '[' ∉ s.string)
     (htot : ∀ p ∈ w.nodes.map (·.1), ∃ x, d.ctx.sidOfPath p config = .ok x)
     (hrs : Ctx.mapE (fun s' => d.pathsStarSids w config [s']) stars = .ok rs)
     (hR : d.pathsStarSids w config stars = .ok R) : ∀ x, x ∈ rs.flatten ↔ x ∈ R := by
   intro x
-  obtain ⟨R', hR', _, hRm⟩ := C11.c11_star_list_mem d w config stars hsp hgm hstr htot
+  obtain ⟨R', hR', _, hRm⟩ := C11.c11_star_list_mem d w config stars hsp hgm htot
   rw [hR] at hR'; injection hR' with hR'; subst hR'
   have hmem := mapE_mem _ _ _ hrs
   have one : ∀ s' ∈ stars, ∃ r, d.pathsStarSids w config [s'] = .ok r ∧
@@ -153,8 +153,7 @@ theorem paths_joint (d : DCtx) (w : World) (config : Option Str) (stars : List S
     intro s' hs'
     obtain ⟨r, hr, _, hm⟩ := C11.c11_star_list_mem d w config [s']
       (fun a ha => by simp only [List.mem_singleton] at ha; subst ha; exact hsp _ hs')
-      (fun a ha => by simp only [List.mem_singleton] at ha; subst ha; exact hgm _ hs')
-      (fun a ha b hb _ _ => by simp only [List.mem_singleton] at ha hb; subst ha; subst hb; rfl) htot
+      (fun a ha => by simp only [List.mem_singleton] at ha; subst ha; exact hgm _ hs') htot
     refine ⟨r, hr, fun x => ?_⟩
     rw [hm]
     constructor
